@@ -87,6 +87,50 @@ def e_worker(fam):
     return {"fam": fam, "rows": rows, "paths": len(outs), "functions": sorted(it.functions_entered)}
 
 
+def e2_worker(fam):
+    """Same obligation as e_worker, from the public entry `add_item` (all flags symbolic): whatever closure / partial ends
+    up storing the element, the store is guarded by a successful check of that very element."""
+    import ast as _a
+    from ..common import Outcome
+    ctx = get_ctx()
+    ci = ctx.p.find_class(MUTATOR_OF[fam])
+    c, m = ctx.p.lookup_method(ci, "add_item")
+    fi = m[0]
+    from ..state import State
+    from ..values import Inst, Ref
+    st = State()
+    addr = st.alloc("mutator", Inst(ci, {"attr_spec": Sym(("attr_spec",), {CLS}), "instance": recv_sym(),
+                                         "collection": Sym(("coll",), {FRESH}, tags={"nonsentinel"})}, FRESH))
+    a = fi.node.args
+    names = [x.arg for x in a.args][1:] + [x.arg for x in a.kwonlyargs]
+    kw = {n: Sym((n,), {ARG}, tags={"nonsentinel"} if n in ("item", "value", "key") else ()) for n in names}
+
+    def conf(cfg):
+        cfg.guard_pred = lambda k: k[0] == "check"
+        cfg.loop_unroll = 1
+        cfg.user_may_raise = False
+
+        def stub_mv(interp, s, args, kwargs, frame, node):
+            return [Outcome("ok", s, Sym(("item",), {ARG}, tags={"nonsentinel"}))]
+        cfg.stubs["mutate_value"] = stub_mv
+    it, outs = run_function(ctx.p, ctx.H, fi, [Ref(addr)], kw, configure=conf, state=st)
+    rows = []
+    for o in outs:
+        for e in o.state.trace:
+            if e[0] == "W" and e[2] == "coll" and e[5] is not None and e[1] in ("method:append", "method:insert", "setitem", "method:add"):
+                g = dict(e[7])
+                checked = set()
+                for k, v in g.items():
+                    if k[0] == "check" and v and str(k[2]).endswith(".item_type"):
+                        try:
+                            t = _a.literal_eval(k[1])
+                            checked.add("/".join(map(str, t[1])) if t[0] == "tok" else str(t))
+                        except Exception:
+                            checked.add(str(k[1]))
+                rows.append({"how": e[1], "value": e[5], "item_ok": e[5] in checked, "site": e[-1]})
+    return {"fam": fam, "rows": rows, "paths": len(outs), "functions": sorted(it.functions_entered)}
+
+
 def prep_worker(fam):
     ctx = get_ctx()
     ci = ctx.p.find_class(MUTATOR_OF[fam])
@@ -177,6 +221,35 @@ def tc_worker(hid):
     return {"hid": hid, "seen": sorted(set(seen)), "functions": sorted(it.functions_entered), "paths": len(outs)}
 
 
+def e_rule(ctx, rep, rule="C03.E"):
+    # ---- E
+    rep.rules[rule] = "each _inserter: element-storing writes are guarded by check_type(item, attr_spec.item_type) (and the key by a key check for mappings)"
+    for r in pmap(e_worker, ["sequence", "mapping", "set"]):
+        rep.functions |= set(r["functions"])
+        rep.evaluations += r["paths"]
+        if not r["rows"]:
+            raise AnalysisError(f"{rule}: no element write found in {r['fam']} _inserter")
+        bad = [row for row in r["rows"] if not row["item_ok"]]
+        badk = [row for row in r["rows"] if r["fam"] == "mapping" and row["how"] == "setitem" and not row["key_ok"]]
+        rep.oblige(rule, f"{MUTATOR_OF[r['fam']]}._inserter[item]", not bad, f"{len(r['rows'])} writes")
+        for row in r["rows"]:
+            rep.nontrivial.add((r["fam"], row["how"], row["item_ok"], row["key_ok"]))
+        rep.sample({"entry": f"{MUTATOR_OF[r['fam']]}._inserter", "writes": r["rows"][:3]})
+        for row in bad[:2]:
+            fn, stmt = ctx.p.stmt_at(row["site"])
+            rep.violate(Violation(rule, f"{rule}|{fn}|{stmt}|item",
+                                  f"{fn}: `{stmt}` stores an element that has not passed check_type(item, attr_spec.item_type) on this path",
+                                  row["site"], fn))
+        if r["fam"] == "mapping":
+            rep.oblige(rule, "MappingMutator._inserter[key]", not badk)
+            for row in badk[:1]:
+                fn, stmt = ctx.p.stmt_at(row["site"])
+                rep.violate(Violation(rule, f"{rule}|{fn}|{stmt}|key",
+                                      f"{fn}: `{stmt}` stores a key that was never type-checked (element helpers call mutate_attr with type_check=False)",
+                                      row["site"], fn))
+
+
+
 def _check_main(ctx, rep: Report):
     # ---- A
     rep.rules["C03.A"] = "mutate_attr: raw write of a managed attribute is guarded by a successful check_type on every path, for all (inplace, force)"
@@ -241,31 +314,20 @@ def _check_main(ctx, rep: Report):
     if nsites < 12:
         raise AnalysisError(f"C03.TC: {nsites} type_check=False sites (floor 12)")
 
-    # ---- E
-    rep.rules["C03.E"] = "each _inserter: element-storing writes are guarded by check_type(item, attr_spec.item_type) (and the key by a key check for mappings)"
-    for r in pmap(e_worker, ["sequence", "mapping", "set"]):
+    # ---- E (from the public entry)
+    for r in pmap(e2_worker, ["sequence", "mapping", "set"]):
         rep.functions |= set(r["functions"])
         rep.evaluations += r["paths"]
         if not r["rows"]:
-            raise AnalysisError(f"C03.E: no element write found in {r['fam']} _inserter")
-        bad = [row for row in r["rows"] if not row["item_ok"]]
-        badk = [row for row in r["rows"] if r["fam"] == "mapping" and row["how"] == "setitem" and not row["key_ok"]]
-        rep.oblige("C03.E", f"{MUTATOR_OF[r['fam']]}._inserter[item]", not bad, f"{len(r['rows'])} writes")
-        for row in r["rows"]:
-            rep.nontrivial.add((r["fam"], row["how"], row["item_ok"], row["key_ok"]))
-        rep.sample({"entry": f"{MUTATOR_OF[r['fam']]}._inserter", "writes": r["rows"][:3]})
-        for row in bad[:2]:
+            raise AnalysisError(f"C03.E: no element store observed from {MUTATOR_OF[r['fam']]}.add_item")
+        badrows = [row for row in r["rows"] if not row["item_ok"]]
+        rep.oblige("C03.E", f"{MUTATOR_OF[r['fam']]}.add_item", not badrows, f"{len(r['rows'])} stores")
+        for row in badrows[:1]:
             fn, stmt = ctx.p.stmt_at(row["site"])
-            rep.violate(Violation("C03.E", f"C03.E|{fn}|{stmt}|item",
-                                  f"{fn}: `{stmt}` stores an element that has not passed check_type(item, attr_spec.item_type) on this path",
+            rep.violate(Violation("C03.E", f"C03.E|{MUTATOR_OF[r['fam']]}.add_item|{fn}|{row['how']}", f"{MUTATOR_OF[r['fam']]}.add_item: `{stmt}` ({fn}) stores an element that has not passed check_type(item, attr_spec.item_type) on this path",
                                   row["site"], fn))
-        if r["fam"] == "mapping":
-            rep.oblige("C03.E", "MappingMutator._inserter[key]", not badk)
-            for row in badk[:1]:
-                fn, stmt = ctx.p.stmt_at(row["site"])
-                rep.violate(Violation("C03.E", f"C03.E|{fn}|{stmt}|key",
-                                      f"{fn}: `{stmt}` stores a key that was never type-checked (element helpers call mutate_attr with type_check=False)",
-                                      row["site"], fn))
+
+    e_rule(ctx, rep)
 
     # ---- PREP
     rep.rules["C03.PREP"] = "prepare(): collection kept as-is only when check_type(collection, attr_spec.type) held; otherwise rebuilt through checked insertions"
@@ -470,3 +532,4 @@ def check(ctx, rep):
     metarules.inherited_rebuild(ctx, rep, "C03.META")
     from .c15 import shapes_rule
     shapes_rule(ctx, rep, "C03.CT")     # the checker every route relies on
+    metarules.attr_spec_fresh(ctx, rep, "C03.SPEC")     # a shared Attr object makes one attribute take another's type
